@@ -190,8 +190,14 @@ macro_rules! seq_check {
     };
 }
 
-pub fn pack_c03_map<P: SimPrefix>(ctx: &mut Ctx, real: &mut PrefixMap<P, Val>, t: &Truth) -> R {
+pub fn pack_c03_map<P: SimPrefix>(ctx: &mut Ctx, real: &mut PrefixMap<P, Val>, t: &Truth, history: &[(Key, u64)]) -> R {
     let exp: Vec<(Raw, u64)> = t.ents.iter().map(|e| (e.raw, e.v)).collect();
+    // second opinion: what the iterator yields is also what the history says is stored (a value
+    // lingering in a recycled slot is "something else" than a stored entry)
+    if ctx.is("C03") {
+        let got = ctx.obs("C03", "iter", || real.iter().take(2 * t.nodes.len() + 8).map(|(p, v)| (p.raw().key(), v.payload)).collect::<Vec<_>>())?;
+        chk!(ctx, "C03", got == history, "seq:iter:vs-history-model", "iter yielded {:?}, but the entries stored according to the call history are {:?}", got, history);
+    }
     let expk: Vec<Raw> = t.ents.iter().map(|e| e.raw).collect();
     let expv: Vec<u64> = t.ents.iter().map(|e| e.v).collect();
     let cap = 2 * t.nodes.len() + 8;
@@ -307,8 +313,12 @@ pub fn pack_c03_map<P: SimPrefix>(ctx: &mut Ctx, real: &mut PrefixMap<P, Val>, t
     Ok(())
 }
 
-pub fn pack_c03_set<P: SimPrefix>(ctx: &mut Ctx, real: &PrefixSet<P>, t: &Truth) -> R {
+pub fn pack_c03_set<P: SimPrefix>(ctx: &mut Ctx, real: &PrefixSet<P>, t: &Truth, history: &[Key]) -> R {
     let expk: Vec<Raw> = t.ents.iter().map(|e| e.raw).collect();
+    if ctx.is("C03") {
+        let got = ctx.obs("C03", "set.iter", || real.iter().take(2 * t.nodes.len() + 8).map(|p| p.raw().key()).collect::<Vec<_>>())?;
+        chk!(ctx, "C03", got == history, "seq:set.iter:vs-history-model", "set.iter yielded {:?}, but the members stored according to the call history are {:?}", got, history);
+    }
     let cap = 2 * t.nodes.len() + 8;
     let split = if expk.is_empty() { 0 } else { (mix64(ctx.salt ^ ctx.step as u64) % (expk.len() as u64 + 1)) as usize };
     let (g, f, c) = ctx.obs("C03", "set.iter", || {
